@@ -92,6 +92,25 @@ class ENoSubclass(Exception):
     raise TypeError('this exception class cannot be subclassed')
 
 
+class EStrictNew(Exception):
+  """__new__ accepts exactly one int."""
+
+  def __new__(cls, code):
+    if not isinstance(code, int):
+      raise TypeError('code must be an int')
+    return super().__new__(cls, code)
+
+  def __init__(self, code):
+    super().__init__(f'strict {code}')
+
+
+class EImmutable(Exception):
+  """Instances reject attribute assignment."""
+
+  def __setattr__(self, name, value):
+    raise AttributeError('immutable exception')
+
+
 class ENoArgs(Exception):
 
   def __init__(self):
@@ -123,6 +142,8 @@ SHAPES = {
     'generator_exit': lambda: GeneratorExit('ge'),
     'no_subclass': lambda: ENoSubclass('nosub'),
     'no_args_init': ENoArgs,
+    'strict_new': lambda: EStrictNew(7),
+    'immutable': lambda: EImmutable('imm'),
     'stop_iteration': lambda: StopIteration('stop'),
     'dup_a': lambda: EDupA('dup a'),
     'dup_b': lambda: EDupB('dup b'),
@@ -252,6 +273,7 @@ def run_fault(root, failing, shape_name, res, case, variant='plain'):
     fdl.build(root)
   except BaseException as e:  # pylint: disable=broad-except
     escaped = e
+  LAST_ESCAPED[0] = escaped
   log = [(k, r) for _, k, r in vfx.LOG]
   res.transitions += 1
   label = shape_name.split(':')[0]
@@ -286,8 +308,9 @@ def run_fault(root, failing, shape_name, res, case, variant='plain'):
   # (c) path
   tok = root_token(s_esc[len(s_orig):])
   candidates = render_paths(root, failing)
-  must = diagnosable(original) and variant in ('plain', 'bad_repr_exception',
-                                               'no_qualname')
+  must = diagnosable(original) and variant in (
+      'plain', 'bad_repr_exception', 'no_qualname', 'reraised') and shape_name not in (
+          'strict_new', 'immutable')
   if tok is None:
     if must:
       res.violation(
@@ -359,7 +382,8 @@ def has_dep_or_dependant(shape, j):
 
 
 # ------------------------------------------------------------ sequences
-EVENTS = ['fail_plain', 'fail_base', 'fail_nosub', 'fail_dup_a', 'fail_dup_b',
+LAST_ESCAPED = [None]
+EVENTS = ['fail_reraise_previous', 'fail_plain', 'fail_base', 'fail_nosub', 'fail_dup_a', 'fail_dup_b',
           'fail_badrepr_exc', 'fail_badrepr_base', 'ok', 'nested',
           'fail_stopiter']
 
@@ -379,6 +403,17 @@ def do_event(ev, res, case):
                   f'{case}: fdl.build from inside a callable under '
                   f'construction was not rejected', case)
     return False
+  if ev == 'fail_reraise_previous':
+    prev = LAST_ESCAPED[0]
+    if prev is None or not isinstance(prev, Exception):
+      return True
+    ALL_SHAPES['__previous__'] = lambda: prev
+    # a different configuration: the earlier diagnostic's path is wrong here
+    failing = fdl.Config(N.failer, x=2)
+    root = {'other': [fdl.Config(N.node_b), failing]}
+    n0 = len(res.violations)
+    run_fault(root, failing, '__previous__', res, case, 'reraised')
+    return len(res.violations) == n0
   shape = {'fail_plain': 'plain', 'fail_base': 'base_exception',
            'fail_nosub': 'no_subclass', 'fail_dup_a': 'dup_a',
            'fail_dup_b': 'dup_b', 'fail_badrepr_exc': 'plain',
@@ -404,6 +439,7 @@ def run_unit(unit, tier, seed):
   if unit[0] == 'seq':
     d = unit[1]
     for seq in itertools.product(EVENTS, repeat=d):
+      LAST_ESCAPED[0] = None
       res.states += 1
       res.evals += 1
       res.nontrivial += 1
